@@ -127,10 +127,6 @@ fn dirty_cases(_t: Tier) -> BoxedStrategy<Case> {
 pub fn steer(e: &Expr, _path: Path, _dc: i64, _dr: i64) -> (Expr, Vec<String>) {
     let mut excluded: Vec<String> = Vec::new();
     let out = e.map(&mut |x| match x {
-        Expr::Array(rows) => {
-            excluded.push("array/altered".into());
-            Expr::Paren(Box::new(rows[0][0].clone()))
-        }
         Expr::At(inner) => {
             excluded.push("at/dropped".into());
             *inner
